@@ -57,6 +57,7 @@ type Case struct {
 	Buddy   bool     `json:"buddy"`
 	GPUs    []uint64 `json:"gpus"` // pages per GPU
 	Hostile bool     `json:"hostile"`
+	Large   bool     `json:"large,omitempty"`
 	Ops     []Op     `json:"ops"`
 	Coq     string   `json:"coq"`
 }
@@ -419,6 +420,124 @@ func (r *runner) size(rng *vh.Rng, maxPages int) uint64 {
 	return n
 }
 
+// generateLarge: a short history around large buffers (2 MiB - 1 page, 2 MiB,
+// 2 MiB + 1 byte, 4 MiB + delta, rarely 64 MiB) mixed with small allocations of
+// the same and of another process, frees, re-allocations, remaps.
+func generateLarge(rng *vh.Rng) Case {
+	c := Case{Large: true}
+	c.LPS = []uint64{12, 13, 14, 16, 21}[rng.Intn(5)]
+	ps := uint64(1) << c.LPS
+	const MiB = 1 << 20
+	largeSize := func() uint64 {
+		switch rng.Intn(9) {
+		case 0:
+			if 2*MiB > ps {
+				return 2*MiB - ps
+			}
+			return 2 * MiB
+		case 1, 2:
+			return 2 * MiB
+		case 3:
+			return 2*MiB + 1
+		case 4:
+			return 2*MiB + ps
+		case 5, 6:
+			return 4*MiB + uint64(rng.Intn(3))*ps + uint64(rng.Intn(2))
+		case 7:
+			if c.LPS >= 16 {
+				return 64 * MiB
+			}
+			return 3 * MiB
+		default:
+			return 2*MiB - 1
+		}
+	}
+	sizes := []uint64{largeSize(), largeSize(), largeSize()}
+	var total uint64
+	for _, n := range sizes {
+		total += (n-1)/ps + 1
+	}
+	ng := 1 + rng.Intn(2)
+	for i := 0; i < ng; i++ {
+		c.GPUs = append(c.GPUs, total+80)
+	}
+	r := newRunner(c.LPS, false, c.GPUs)
+	add := func(o Op) bool {
+		crashed := r.apply(&o)
+		c.Ops = append(c.Ops, o)
+		return crashed
+	}
+	small := func(ci int) Op { return Op{Op: "alloc", C: ci, N: r.size(rng, 3)} }
+	add(Op{Op: "init"})
+	if rng.Bool() {
+		add(Op{Op: "init"})
+	} else {
+		add(Op{Op: "initpid", C: 0})
+	}
+	type lb struct {
+		c   int
+		ptr uint64
+		n   uint64
+	}
+	var bigs []lb
+	script := []int{0, 1, 0, 2, 1, 0, 3, 0, 1, 4, 0, 5, 1, 0}
+	si := 0
+	for _, k := range script {
+		ci := rng.Intn(2)
+		var o Op
+		switch k {
+		case 0: // small allocation of either context
+			o = small(ci)
+		case 1: // large allocation
+			if si >= len(sizes) {
+				continue
+			}
+			o = Op{Op: "alloc", C: ci, N: sizes[si]}
+			if rng.Intn(4) == 0 {
+				o.Op = "allocu"
+			}
+			si++
+		case 2, 4: // free a large buffer
+			if len(bigs) == 0 {
+				continue
+			}
+			j := rng.Intn(len(bigs))
+			o = Op{Op: "free", C: bigs[j].c, A: bigs[j].ptr}
+			bigs = append(bigs[:j], bigs[j+1:]...)
+		case 3: // remap a few pages in the middle of a large buffer
+			if len(bigs) == 0 {
+				continue
+			}
+			b := bigs[rng.Intn(len(bigs))]
+			np := (b.n-1)/ps + 1
+			first := uint64(rng.Intn(int(np)))
+			cnt := uint64(1 + rng.Intn(3))
+			if first+cnt > np {
+				cnt = np - first
+			}
+			o = Op{Op: "remap", C: b.c, A: b.ptr + first*ps, N: cnt * ps, D: 1 + rng.Intn(ng)}
+		case 5: // distribute a large buffer over the GPUs
+			if len(bigs) == 0 || ng < 2 {
+				continue
+			}
+			b := bigs[rng.Intn(len(bigs))]
+			o = Op{Op: "dist", C: b.c, A: b.ptr, N: b.n, IDs: []int{1, 2}}
+		}
+		if o.Op == "alloc" && !r.valid(&o) {
+			continue
+		}
+		if add(o) {
+			break
+		}
+		last := &c.Ops[len(c.Ops)-1]
+		if k == 1 && len(last.Ret) == 1 {
+			bigs = append(bigs, lb{c: ci, ptr: last.Ret[0], n: last.N})
+		}
+	}
+	c.Coq = caseCoq(&c)
+	return c
+}
+
 func generate(rng *vh.Rng, hostile bool, buddy bool) Case {
 	c := Case{Hostile: hostile, Buddy: buddy}
 	// page sizes 2^12 .. 2^16 and 2 MiB
@@ -561,7 +680,7 @@ func generate(rng *vh.Rng, hostile bool, buddy bool) Case {
 }
 
 func replay(in Case) Case {
-	out := Case{LPS: in.LPS, Buddy: in.Buddy, GPUs: in.GPUs, Hostile: in.Hostile}
+	out := Case{LPS: in.LPS, Buddy: in.Buddy, GPUs: in.GPUs, Hostile: in.Hostile, Large: in.Large}
 	r := newRunner(in.LPS, in.Buddy, in.GPUs)
 	for _, o := range in.Ops {
 		n := Op{Op: o.Op, C: o.C, N: o.N, A: o.A, D: o.D, IDs: o.IDs}
@@ -716,6 +835,7 @@ func main() {
 	n := flag.Int("n", 100, "number of histories")
 	hostileEvery := flag.Int("hostile-every", 5, "every k-th history uses the hostile stream")
 	buddyEvery := flag.Int("buddy-every", 0, "every k-th history uses the buddy allocator (0: never)")
+	largeEvery := flag.Int("large-every", 0, "every k-th history is a short history around large (>= 2 MiB) buffers (0: never)")
 	out := flag.String("out", "", "output JSON file")
 	rep := flag.String("replay", "", "JSON file with cases to replay")
 	flag.Parse()
@@ -738,6 +858,10 @@ func main() {
 		for i := 0; i < *n; i++ {
 			buddy := *buddyEvery > 0 && i%*buddyEvery == *buddyEvery-1
 			hostile := !buddy && *hostileEvery > 0 && i%*hostileEvery == *hostileEvery-1
+			if *largeEvery > 0 && i%*largeEvery == *largeEvery-2 {
+				cases = append(cases, generateLarge(rng.Fork()))
+				continue
+			}
 			cases = append(cases, generate(rng.Fork(), hostile, buddy))
 		}
 	}
